@@ -29,7 +29,9 @@ pub trait Engine: Sync {
     fn run_impl(&self, ops: &[String], out: &mut Vec<String>);
     /// Reference oracle; one line per op, `?` where the spec leaves the answer open.
     /// `None` = this engine has no separate oracle (model is the only comparison).
-    fn run_spec(&self, _ops: &[String]) -> Option<Vec<String>> {
+    /// `impl_out` may be consulted only to resolve choices the property leaves to the
+    /// implementation (e.g. whether an operation allocated and therefore saw the scripted fault).
+    fn run_spec(&self, _ops: &[String], _impl_out: &[String]) -> Option<Vec<String>> {
         None
     }
     /// Coverage tags of a case (for the histogram and the non-triviality rule).
@@ -192,13 +194,24 @@ impl Drop for Worker {
     }
 }
 
+/// Runs the cases in a worker process. After `MAX_RESTARTS` crashes/hangs the remaining cases
+/// are not run (their output is a single `skipped` line) so that a tree on which most cases
+/// hang still yields a verdict in bounded time.
+pub const MAX_RESTARTS: usize = 4;
+
 pub fn run_impl_isolated(engine: &dyn Engine, cases: &[Vec<String>]) -> Vec<Vec<String>> {
     let mut w = Worker::spawn(engine.name());
     let mut res = Vec::with_capacity(cases.len());
+    let mut restarts = 0;
     for c in cases {
+        if restarts >= MAX_RESTARTS {
+            res.push(vec!["skipped".to_string()]);
+            continue;
+        }
         let (out, restart) = w.run_case(c, engine.timeout());
         res.push(out);
         if restart {
+            restarts += 1;
             w = Worker::spawn(engine.name());
         }
     }
@@ -286,10 +299,15 @@ pub fn shrink(
     let mut cur: Vec<String> = ops.to_vec();
     let mut chunk = (cur.len().saturating_sub(keep) / 2).max(1);
     let mut budget = 400usize;
+    let t0 = std::time::Instant::now();
     loop {
         let mut progressed = false;
         let mut i = keep;
         while i < cur.len() && budget > 0 {
+            if t0.elapsed().as_secs() >= 20 {
+                budget = 0;
+                break;
+            }
             let end = (i + chunk).min(cur.len());
             let mut cand = cur[..i].to_vec();
             cand.extend_from_slice(&cur[end..]);
@@ -415,6 +433,10 @@ pub fn run_engine(engine: &dyn Engine, cfg: &RunConfig) -> RunSummary {
     let mut samples = vec![];
 
     for (i, ops) in cases.iter().enumerate() {
+        if impl_out[i].len() == 1 && impl_out[i][0] == "skipped" && ops.len() != 1 {
+            *tags.entry("skipped-after-crashes".to_string()).or_insert(0) += 1;
+            continue;
+        }
         ops_total += ops.len();
         for t in engine.tags(ops, &impl_out[i]) {
             *tags.entry(t).or_insert(0) += 1;
@@ -430,20 +452,20 @@ pub fn run_engine(engine: &dyn Engine, cfg: &RunConfig) -> RunSummary {
             samples.push(s);
         }
         // oracle
-        if let Some(spec) = engine.run_spec(ops) {
+        if let Some(spec) = engine.run_spec(ops, &impl_out[i]) {
             spec_lines += spec.iter().filter(|l| l.as_str() != "?").count();
             if let Some(k) = first_diff(engine, ops, &impl_out[i], &spec, false) {
-                if spec_failures.len() < 5 {
+                if spec_failures.len() < 3 {
                     let keep = engine.shrink_keep_prefix(ops);
                     let shr = shrink(ops, keep, |cand| {
                         let io = run_impl_isolated(engine, &[cand.to_vec()]).pop().unwrap();
-                        match engine.run_spec(cand) {
+                        match engine.run_spec(cand, &io) {
                             Some(sp) => first_diff(engine, cand, &io, &sp, false).is_some(),
                             None => false,
                         }
                     });
                     let io = run_impl_isolated(engine, &[shr.clone()]).pop().unwrap();
-                    let sp = engine.run_spec(&shr).unwrap();
+                    let sp = engine.run_spec(&shr, &io).unwrap();
                     let k2 = first_diff(engine, &shr, &io, &sp, false).unwrap_or(k.min(shr.len().saturating_sub(1)));
                     let f = Failure {
                         kind: "impl-vs-spec",
@@ -474,7 +496,7 @@ pub fn run_engine(engine: &dyn Engine, cfg: &RunConfig) -> RunSummary {
         if let Some(mo) = &model_out {
             model_lines += ops.iter().filter(|o| engine.model_compared(o)).count();
             if let Some(k) = first_diff(engine, ops, &impl_out[i], &mo[i], true) {
-                if model_failures.len() < 5 {
+                if model_failures.len() < 3 {
                     let drv = cfg.driver.clone().unwrap();
                     let keep = engine.shrink_keep_prefix(ops);
                     let shr = shrink(ops, keep, |cand| {
